@@ -84,7 +84,7 @@ fn walk(p: &P, hidden: bool, in_adj: bool, v: &mut Visible) {
     match p {
         P::Switch(n) | P::ReqFlag(n) | P::Flag(n) => names_row(n, None, hidden, in_adj, v),
         P::Arg { names, metavar, .. } => names_row(names, Some(metavar), hidden, in_adj, v),
-        P::Pos { metavar, help, .. } => {
+        P::Pos { metavar, help, .. } | P::AnyKv { metavar, help } => {
             if !hidden {
                 v.rows.push(Row::Pos { metavar: metavar.clone(), help: help.as_ref().map(first_paragraph), in_adjacent: in_adj });
             }
@@ -121,7 +121,7 @@ pub fn visible(o: &Opts) -> Visible {
             P::Cmd { .. } => walk(p, hidden, in_adj, v),
             P::Hide(x) => top(x, true, in_adj, v),
             P::Adj(xs) => xs.iter().for_each(|x| top(x, hidden, true, v)),
-            P::Switch(_) | P::ReqFlag(_) | P::Flag(_) | P::Arg { .. } | P::Pos { .. } => walk(p, hidden, in_adj, v),
+            P::Switch(_) | P::ReqFlag(_) | P::Flag(_) | P::Arg { .. } | P::Pos { .. } | P::AnyKv { .. } => walk(p, hidden, in_adj, v),
             _ => p.children(&mut |c| top(c, hidden, in_adj, v)),
         }
     }
